@@ -519,6 +519,13 @@ pub fn run_case(c: &CaseCfg, ops: &[String], out: &mut dyn Write, scratch: &Path
                 "ok".into()
             }
             "canmerge" => format!("{}", live.h.as_ref().unwrap().verif_can_merge()),
+            "touch" => {
+                // create an empty file of that name in the store directory (e.g. the name the next merge pass wants)
+                match std::fs::OpenOptions::new().write(true).create_new(true).open(dir.join(it.next().unwrap())) {
+                    Ok(_) => "ok".into(),
+                    Err(e) => format!("err:{}", e.kind()),
+                }
+            }
             "waitmerge" => {
                 // wait for a background merge: a hint file appears
                 let ms: u64 = it.next().unwrap().parse().unwrap();
